@@ -29,6 +29,17 @@ class Crash(Exception):
 TYPES = {"list": list, "tuple": tuple, "str": str, "int": int, "float": float, "dict": dict, "bool": bool, "set": set}
 
 
+class FuncRef:
+    def __init__(self, func):
+        self.func = func
+
+    def __repr__(self):
+        return "<function %s>" % self.func.name
+
+
+_SUMMARIES = {}
+
+
 class Evaluator:
     def __init__(self, sx, env):
         """env: {term: python value} for free symbols, e.g. ('v','width'): 3, ('attr',('v','self'),'num_states'): 5."""
@@ -51,7 +62,17 @@ class Evaluator:
         if h == "v":
             if t[1] in TYPES:
                 return TYPES[t[1]]
+            if t[1] in self.sx.func.mod.funcs:
+                return FuncRef(self.sx.func.mod.funcs[t[1]])
             raise EvalUnsupported("free symbol %s has no witness value" % t[1])
+        if h == "apply":
+            fv = self.ev(t[1], loc)
+            args = [self.ev(a, loc) for a in t[2]]
+            if isinstance(fv, FuncRef):
+                return self.apply(fv, args, dict((k, self.ev(v, loc)) for k, v in t[3]))
+            raise EvalUnsupported("call of a non-function value %r" % (fv,))
+        if h == "closure":
+            raise EvalUnsupported("closure value")
         if h == "attr":
             raise EvalUnsupported("attribute %s has no witness value" % show(t))
         if h == "unbound":
@@ -156,6 +177,27 @@ class Evaluator:
 
     def truth(self, t, loc):
         return bool(self.ev(t, loc))
+
+    def apply(self, fref, args, kws):
+        """Value returned by a (small, loop-free) helper function of the same module on witness arguments."""
+        from .symx import SymX
+        key = fref.func.qual
+        if key not in _SUMMARIES:
+            _SUMMARIES[key] = SymX(self.sx.ctx, fref.func).run()
+        sub = _SUMMARIES[key]
+        env = {}
+        params = list(fref.func.params)
+        for p_, v in zip(params, args):
+            env[("v", p_)] = v
+        for k, v in kws.items():
+            env[("v", k)] = v
+        ev2 = Evaluator(sub, env)
+        out = ev2.run()
+        if out[0] == "raise":
+            raise Crash(out[1], "raised inside %s" % fref.func.name)
+        if out[0] == "crash":
+            raise Crash(out[1], out[2])
+        return ev2.ev(sub.ret, {})
 
     def call(self, t, loc):
         name, args, kws = t[1], t[2], t[3]
